@@ -418,6 +418,7 @@ def impl_model_stage(prefixes, expect_fail=(), orig_mutants=(), nonotify_mutants
             concurrent_stage("drift", wd, extra, v, cov,
                              [("dfs", 20000 if tier == "quick" else 200000, 2), ("random", 1500, 0), ("pct", 1500, 0)],
                              label="drift")
+    stage.prefixes = tuple(p for p in prefixes if p not in ("addshared",))
     return stage
 
 
@@ -445,6 +446,17 @@ def generic_check(prop, tier, own, scns, plans, rule, gens=None, extra_assume=()
     if gens:
         sequential_stage(prop, wd, gens, v, cov)
     if scns:
+        # the model scenarios of MQImpl (both ring sizes) are explored natively as well, not only replayed
+        pref = tuple(p for m in (models or []) for p in getattr(m, "prefixes", ()))
+        if pref:
+            seen = {s_["name"] for s_ in scns}
+            for mm_ in md.standard_models(tier):
+                if mm_["name"].startswith(pref):
+                    hs, _ = md.to_harness(mm_)
+                    hs = dict(hs)
+                    hs["name"] = "M-" + hs["name"]
+                    if hs["name"] not in seen:
+                        scns = scns + [hs]
         cov["scenarios"] = len(scns)
         concurrent_stage(prop, wd, scns, v, cov, plans)
     rc = v.finish()
